@@ -442,7 +442,66 @@ def section_kd(ctx, binp, runner, st):
     ctx.notes["key_derivation_distribution"] = dist
 
 
-SECTIONS = [("wnaf", section_wnaf), ("mexp", section_mexp), ("enc", section_enc), ("shamir", section_shamir), ("kd", section_kd)]
+def g1dec_compare(ctx, binp, runner, st, items):
+    """items: list of (kind, hexbytes).  Model g1_decode vs Deserial for ArkGroup<G1>: accept/reject and coordinates."""
+    outs = run_model(runner, ["g1dec %s" % b for _, b in items], par=16)
+    impl = run_harness_stdin(binp, "g1xy", [b for _, b in items])
+
+    def norm(o):
+        o = o.strip()
+        if o in ("None", "inf", "PANIC"):
+            return o
+        return tuple(int(x, 16) for x in o.split())
+    dist = {}
+    for (kind, b), m, i in zip(items, outs, impl):
+        key = c.digest(["g1dec", b])
+        st.seen.add(key)
+        tag = "%s/%s" % (kind, "accepted" if norm(i) not in ("None", "PANIC") else "rejected")
+        dist[tag] = dist.get(tag, 0) + 1
+        if norm(i) not in ("None", "PANIC"):
+            st.nontrivial.add(key)
+        if norm(m) != norm(i):
+            ctx.violation({"section": "g1dec", "seed": ctx.seed, "kind": kind, "bytes": b, "model": m, "impl": i,
+                           "theorems": "g1_decode_encode / g1_decode_canonical / g1_decode_valid hold for the model"},
+                          "G1 point decoding of %s (%s): implementation %s, model %s" % (b, kind, i.strip()[:40], m[:40]))
+    st.evals += len(items)
+    st.traces += len(items)
+    return dist
+
+
+def section_g1dec(ctx, binp, runner, st):
+    cases = harness_cases(ctx, binp, "enc", 6 if ctx.quick else 60)
+    if cases is None:
+        return
+    # the model's subgroup check costs ~17 s per point (extracted binary arithmetic): few of those
+    expensive = {"valid": 1 if ctx.quick else 12, "sort-flag-flipped": 0 if ctx.quick else 8,
+                 "wrong-subgroup": 0 if ctx.quick else 12, "random-x-in-subgroup": 0 if ctx.quick else 2,
+                 "random-bytes": 0 if ctx.quick else 6}
+    cheap_cap = 2 if ctx.quick else 12
+    taken = {}
+    items = [("canonical-infinity", "c0" + "00" * 47), ("infinity-with-sort-flag", "e0" + "00" * 47),
+             ("infinity-flag-with-junk", "c0" + "00" * 46 + "01"), ("infinity-flag-with-junk", "ff" * 48),
+             ("compression-flag-cleared", "40" + "00" * 47), ("all-zero", "00" * 48),
+             ("coordinate>=p", "9a0111ea397fe69a4b1ba7b6434bacd764774b84f38512bf6730d2a0f6b0f6241eabfffeb153ffffb9feffffffffaaab"),
+             ("x=p-1", "9a0111ea397fe69a4b1ba7b6434bacd764774b84f38512bf6730d2a0f6b0f6241eabfffeb153ffffb9feffffffffaaaa"),
+             ("x=0", "80" + "00" * 47), ("x=0-sorted", "a0" + "00" * 47)]
+    if not ctx.quick:
+        items.append(("generator", "97f1d3a73197d7942695638c4fa9ac0fc3688c4f9774b905a14e3a3f171bac586c55e83ff97a1aeffb3af00adb22c6bb"))
+    for cs in cases:
+        if cs["k"] != "dec" or cs["c"] != "g1":
+            continue
+        kind = cs["kind"]
+        if kind == "valid" and cs["bytes"].startswith("c0"):
+            kind = "valid-infinity"
+        cap = expensive.get(kind, cheap_cap)
+        if taken.get(kind, 0) >= cap:
+            continue
+        taken[kind] = taken.get(kind, 0) + 1
+        items.append((kind, cs["bytes"]))
+    ctx.notes["g1_decode_distribution"] = g1dec_compare(ctx, binp, runner, st, items)
+
+
+SECTIONS = [("wnaf", section_wnaf), ("mexp", section_mexp), ("enc", section_enc), ("shamir", section_shamir), ("kd", section_kd), ("g1dec", section_g1dec)]
 
 
 def replay(ctx, binp, runner, st):
@@ -458,6 +517,9 @@ def replay(ctx, binp, runner, st):
         if (out["accepted"] and out["reenc_same"] is False) or (cs.get("expect") == "reject" and out["accepted"]) or \
                 (cs.get("expect") == "accept" and not out["accepted"]) or (cs.get("k") == "sdec" and out["accepted"] != cs["below"]):
             ctx.violation(rp, "replay: decoding of %s still violates the property" % cs["bytes"])
+        return
+    if rp.get("section") == "g1dec" and "bytes" in rp:
+        g1dec_compare(ctx, binp, runner, st, [(rp.get("kind", "replay"), rp["bytes"])])
         return
     if "seed" in rp:
         ctx.seed = rp["seed"]
@@ -478,7 +540,7 @@ def run(ctx):
     if not ok:
         proof_broken = info
         ctx.log("proof obligations broken:", info["failed_file"], info["error"][-600:])
-        c.coq_build(ctx, ["Crypto/Wnaf.vo", "Crypto/Shamir.vo", "Crypto/ScalarCodec.vo", "Crypto/Paths.vo"])
+        c.coq_build(ctx, ["Crypto/Wnaf.vo", "Crypto/Shamir.vo", "Crypto/ScalarCodec.vo", "Crypto/Paths.vo", "Crypto/G1Decode.vo"])
     ok, binp = c.cargo_build(ctx, "c20")
     if not ok:
         ctx.violation({"layer": "harness build against /repo", "error": binp},
